@@ -12,6 +12,10 @@ import sys
 def main():
     via, paths = sys.argv[1], sys.argv[2:]
     from nada_dsl.compile import compile_script, compile_string
+    import os
+    if os.environ.get("NV_TIMERS"):
+        from nada_dsl.timer import timer
+        timer.enable()
     out = []
     for path in paths:
         if path.startswith("@write:"):
